@@ -85,7 +85,11 @@ RULE = ('planets 0.01-20 M_J, 0.1-3 R_J; 1-200 layers (quota for 1, 2, 3); press
         '(other layer count / pressure grid) built around the temperature profile / chemistry / planet / star OBJECTS of a first '
         'one, both judged and compared with models built from new components; TwoLayerGas smoothing windows: default, collapsing '
         'to one layer (int(n*w/100) <= 1), wide - the CO2 row compared with the C10 model on the model pressure profile and judged '
-        'for alignment with it; length units km / cm / mm / AU / Rjup judged against an independent table of unit sizes. distinct non-trivial = distinct (stream, pressure class, temperature class, layers, '
+        'for alignment with it; contributions stream: transmission / emission models that CARRY opacity contributions (absorption, '
+        'CIA, Rayleigh, H- continuum with H and e- in the chemistry, grey clouds, flat Mie haze; every one at least once per run), '
+        'judged after build and again after 1-3 evaluations through model() / model_contrib() / model_full_contrib() - the '
+        'structure must satisfy every relation with the REQUESTED grid (an array grid is the given array) and be what it was '
+        'before the evaluation; length units km / cm / mm / AU / Rjup judged against an independent table of unit sizes. distinct non-trivial = distinct (stream, pressure class, temperature class, layers, '
         'mu class) with non-constant T or mu or more than one layer')
 ASSUMPTIONS = [
     'np.linspace(a, b, n+1) = i*((b-a)/n) + a with the last entry set to b; np.logspace = 10**linspace; x**2 = x*x',
@@ -534,15 +538,39 @@ def build_model(c, comps=None):
         if c['mukind'] == 'varying':
             chem.addGas(TwoLayerGas('CO2', mix_ratio_surface=float(c['co2'][0]), mix_ratio_top=float(c['co2'][1]),
                                     mix_ratio_P=float(c['co2'][2]), mix_ratio_smoothing=co2_smoothing(c)))
+        if 'hm' in [t['type'] for t in c.get('contribs', [])]:
+            # the H- continuum reads atomic hydrogen and free electrons off the chemistry
+            chem.addGas(ConstantGas('H', mix_ratio=float(c['hm_mix'][0])))
+            chem.addGas(ConstantGas('e-', mix_ratio=float(c['hm_mix'][1])))
     kw = dict(planet=comps.get('planet') or Planet(float(c['mass']), float(c['radius'])),
               star=comps.get('star') or BlackbodyStar(5800.0, 1.0), temperature_profile=tp, chemistry=chem)
+    klass = TransmissionModel
+    if c.get('mkind', 'transmission') == 'emission':
+        from taurex.model import EmissionModel
+        klass = EmissionModel
     if c['pkind'] == 'simple':
-        m = TransmissionModel(nlayers=n, atm_min_pressure=float(c['pmin']), atm_max_pressure=float(c['pmax']), **kw)
+        m = klass(nlayers=n, atm_min_pressure=float(c['pmin']), atm_max_pressure=float(c['pmax']), **kw)
     else:
-        m = TransmissionModel(pressure_profile=ArrayPressureProfile(np.asarray(c['array'], float),
-                                                                    reverse=bool(c['reverse'])), **kw)
+        m = klass(pressure_profile=ArrayPressureProfile(np.asarray(c['array'], float), reverse=bool(c['reverse'])), **kw)
+    if c.get('contribs'):
+        from harness import fm_common as FM
+        register_cia()
+        for t in c['contribs']:
+            m.add_contribution(FM.make_contribution(dict(t)))
     m.build()
     return m
+
+
+def register_cia():
+    """an in-memory H2-H2 collision-induced absorption table (for models that carry a CIA contribution)"""
+    if _CONST.get('cia'):
+        return
+    from harness import fm_common as FM
+    from taurex.cache import CIACache
+    if 'H2-H2' not in CIACache().cia_dict:
+        FM.register_cia(FM.MemCIA('H2-H2', np.linspace(400.0, 6000.0, 5), np.array([50.0, 1000.0, 5000.0]),
+                                  np.full((3, 5), 1e-46)))
+    _CONST['cia'] = True
 
 
 def register_opacity():
@@ -577,10 +605,11 @@ PER_LAYER = ['pressureProfile', 'temperatureProfile', 'densityProfile', 'altitud
 
 def eval_model(ctx, c):
     k = constants()
+    import copy
     small = dict(c, kind='model')
     try:
         with np.errstate(all='ignore'):
-            m = build_model(c)
+            m = build_model(copy.deepcopy(c))      # the real objects keep the arrays they are handed: give them their own
     except Exception as e:
         ctx.violation('raises:build', 'building the forward model raised %r' % (e,), small)
         return
@@ -664,6 +693,12 @@ def judge_model(ctx, m, c, small, stream):
     # -- pressure grid predicates
     if c['pkind'] == 'simple':
         check_levels(ctx, pl, P, n, float(c['pmin']), float(c['pmax']), small, 'model')
+    else:
+        given = np.asarray(c['array'], float)
+        given = given[::-1] if c['reverse'] else given
+        if not same_arrays(P, given):
+            ctx.violation('array-profile-changed:model', 'model.pressureProfile of a model built on an array pressure profile is '
+                          'not the given array of layer pressures', small, dict(pressureProfile=P[:4], given=given[:4]))
     # -- hydrostatic predicates (any strictly decreasing levels)
     if dec:
         if H.shape == (n,) and g.shape == (n,) and dz.shape == (n,):
@@ -801,6 +836,106 @@ def gen_array(rng, n, pmin, pmax):
     if rng.random() < 0.15:
         out['file'] = str(rng.choice(['Pa', 'bar', 'mbar']))
     return out
+
+
+# ----------------------------------------------------------------------------- stream 3b: models that carry contributions
+CONTRIB_TYPES = ['absorption', 'cia', 'rayleigh', 'hm', 'clouds', 'flatmie']
+HOW_EVAL = ['model', 'model_contrib', 'model_full_contrib']
+SNAPSHOT = ['pressureProfile', 'temperatureProfile', 'densityProfile', 'altitudeProfile', 'gravity_profile',
+            'scaleheight_profile', 'deltaz', 'altitude_boundaries']
+
+
+def gen_contrib_case(rng, k):
+    """a forward model WITH opacity contributions (what every real run has): each contribution type is pinned in turn, 0-3
+    more are drawn; transmission or emission; evaluated 1-3 times through one of the three public evaluation calls"""
+    import copy
+    c = gen_model_case(rng, k)
+    n = int(c['n'])
+    if n > 60:                            # the H- continuum is a Python loop over layers and wavelengths
+        n = c['n'] = 2 + n % 59
+        if c['pkind'] == 'array':
+            c.update(gen_array(rng, n, c['pmin'], c['pmax']))
+        if c['tkind'] == 'array':
+            c['T'] = np.asarray(c['T'], float)[:n]
+    c.pop('file', None)
+    types = [CONTRIB_TYPES[k % len(CONTRIB_TYPES)]]
+    for t in CONTRIB_TYPES:
+        if t not in types and rng.random() < 0.3:
+            types.append(t)
+    contribs = []
+    for t in types:
+        if t == 'cia':
+            contribs.append(dict(type='cia', pairs=['H2-H2']))
+        elif t == 'clouds':
+            contribs.append(dict(type='clouds', clouds_pressure=float(10 ** rng.uniform(math.log10(c['pmin']),
+                                                                                        math.log10(c['pmax'])))))
+        elif t == 'flatmie':
+            lo, hi = sorted(float(10 ** rng.uniform(math.log10(c['pmin']), math.log10(c['pmax']))) for _ in range(2))
+            contribs.append(dict(type='flatmie', flat_mix_ratio=float(10 ** rng.uniform(-30, -24)), flat_bottomP=hi,
+                                 flat_topP=lo))
+        else:
+            contribs.append(dict(type=t))
+    c['contribs'] = contribs
+    c['hm_mix'] = [float(10 ** rng.uniform(-6, -2)), float(10 ** rng.uniform(-9, -4))]
+    c['mkind'] = 'emission' if k % 3 == 2 else 'transmission'
+    c['evals'] = int(rng.integers(1, 4))
+    c['how'] = HOW_EVAL[(k // 2) % 3]
+    return dict(copy.deepcopy(c), kind='model-contrib')
+
+
+def eval_model_contrib(ctx, c):
+    """the structure of a model that carries contributions: judged after build and after the evaluations, against the
+    values REQUESTED (a private copy of the case: the arrays handed to the real objects are theirs to keep) and against what
+    the same object exposed before it was evaluated"""
+    import copy
+    ref = copy.deepcopy({k_: v for k_, v in c.items() if k_ != 'kind'})
+    small = dict(copy.deepcopy(ref), kind='model-contrib')
+    given = copy.deepcopy(ref)               # what the real objects are built from (and may hold on to)
+    try:
+        with np.errstate(all='ignore'):
+            m = build_model(given)
+    except Exception as e:
+        if _invalid_params(ctx, e):
+            return
+        ctx.violation('raises:build', 'building the forward model raised %r' % (e,), small)
+        return
+    for t in ref['contribs']:
+        ctx.bucket('contrib:' + t['type'])
+    ctx.bucket('contrib:model:' + ref['mkind'])
+    z = np.asarray(m.altitude_boundaries, float)
+    T0 = np.asarray(m.temperatureProfile, float)
+    if not (np.all(np.isfinite(z)) and np.all(np.isfinite(T0)) and np.all(T0 > 0) and z[-1] < 1e3 * float(m.planet.fullRadius)):
+        ctx.malformed_outcome('unbound-or-nonpositive-T:' + str(ref['tkind']))
+        return
+    judge_model(ctx, m, ref, small, 'contrib')
+    before = {a: np.array(getattr(m, a), float) for a in SNAPSHOT}
+    before['pressure_profile_levels'] = np.array(m.pressure.pressure_profile_levels, float)
+    before['muProfile'] = np.array(m.chemistry.muProfile, float)
+    for i in range(int(ref['evals'])):
+        try:
+            with np.errstate(all='ignore'):
+                if ref['how'] == 'model_full_contrib' and i == 0:
+                    m.model()        # the order of the package's own output stage (the per-component call needs a prepared model)
+                getattr(m, ref['how'])()
+        except Exception as e:
+            if not _invalid_params(ctx, e):
+                ctx.violation('raises:' + ref['how'], 'evaluating the built forward model (%s) raised %r' % (ref['how'], e),
+                              small)
+            return
+        ctx.bucket('contrib:structure-reread-after-%s()' % ref['how'])
+        actx = AfterModelCtx(ctx, 'after-model:')
+        judge_model(actx, m, ref, small, 'contrib-after-model')
+        after = {a: np.asarray(getattr(m, a), float) for a in SNAPSHOT}
+        after['pressure_profile_levels'] = np.asarray(m.pressure.pressure_profile_levels, float)
+        after['muProfile'] = np.asarray(m.chemistry.muProfile, float)
+        for name, b in before.items():
+            a = after[name]
+            ctx.disagreements_checked += 1
+            if a.shape != b.shape or not C.close(a.ravel(), b.ravel(), 1e-12, 0.0):
+                actx.violation('structure-changed:' + name, 'model.%s after evaluation %d of the forward model is not what the '
+                               'same model exposed after build (same parameters)' % (name, i + 1), small,
+                               dict(contributions=[t['type'] for t in ref['contribs']], after=a[:4], before=b[:4]))
+                return
 
 
 # ----------------------------------------------------------------------------- stream 4: re-used objects
@@ -1059,6 +1194,8 @@ def eval_case(ctx, c):
         eval_array_pressure(ctx, c)
     elif kind == 'direct':
         eval_direct(ctx, c)
+    elif kind == 'model-contrib':
+        eval_model_contrib(ctx, c)
     else:
         eval_model(ctx, c)
 
@@ -1098,6 +1235,8 @@ def run(ctx):
         eval_direct(ctx, gen_direct(rng, k))
     for k in range(ctx.n(500, 8000)):
         eval_model(ctx, gen_model_case(rng, k))
+    for k in range(ctx.n(96, 1200)):
+        eval_model_contrib(ctx, gen_contrib_case(rng, k))
     for k in range(ctx.n(150, 2500)):
         n = [1, 2, 3][k % 10] if k % 10 < 3 else int(rng.integers(1, 201))
         pmin0, pmax0, _ = gen_pressure_range(rng)
